@@ -109,6 +109,7 @@ type c01result struct {
 	state   c01state
 	reqs    []c01req // transitions requested in the LAST cycle
 	cycles  int
+	stale   int // requests whose Old did not describe the disk (refused by the scripted endpoint)
 }
 
 func shallowOf(e *E) *E {
@@ -207,23 +208,27 @@ func updateL(l [2]*E, x, y *E) [2]*E {
 	return l
 }
 
-func protection(m core.SynchronizationMode) (alpha, beta, conflicts bool) {
+// protection says what a mode promises: whose modifications survive (C01 for
+// two-way-safe; C02 for the protected side of the other modes), whether
+// both-modified disagreements must be listed as conflicts (C01), and whether
+// alpha must not be touched at all (C02, one-way modes).
+func protection(m core.SynchronizationMode) (alpha, beta, conflicts, alphaReadOnly bool) {
 	switch m {
 	case core.SynchronizationMode_SynchronizationModeTwoWaySafe:
-		return true, true, true
+		return true, true, true, false
 	case core.SynchronizationMode_SynchronizationModeTwoWayResolved:
-		return true, false, false
+		return true, false, false, false
 	case core.SynchronizationMode_SynchronizationModeOneWaySafe:
-		return true, true, false
+		return true, true, false, true
 	}
-	return true, false, false
+	return true, false, false, true
 }
 
 // runC01 replays one history in a fresh bubble and judges every cycle.
 func runC01(t *testing.T, root string, c c01case, logf func(string, ...any)) (res c01result) {
 	inBubble(t, func() {
 		m := modeByName(c.Mode)
-		pa, pb, wc := protection(m)
+		pa, pb, wc, aro := protection(m)
 		w := newWorld(root, worldConfig{Mode: m, AlphaPreserves: true, BetaPreserves: true}, dir(), dir(), logf != nil)
 		var l [2]*E
 		faults := 0
@@ -266,6 +271,19 @@ func runC01(t *testing.T, root string, c c01case, logf func(string, ...any)) (re
 				res.verdict = fmt.Sprintf("cycle %d: %s", i+1, what)
 				break
 			}
+			if aro {
+				// C02: "In one-way modes the source (alpha) endpoint is never modified,
+				// neither by planned changes nor through its endpoint accepting staging
+				// or transition requests."
+				if call := o.callFor("alpha"); call != nil && len(call.Changes) > 0 {
+					res.verdict = fmt.Sprintf("cycle %d: alpha was asked to change %q (%s -> %s) in a one-way mode", i+1, call.Changes[0].Path, show(call.Changes[0].Old), show(call.Changes[0].New))
+					break
+				}
+				if w.staged["alpha"] > 0 || !deepEq(o.AlphaBefore, o.AlphaAfter) {
+					res.verdict = fmt.Sprintf("cycle %d: alpha was asked to stage files or was modified in a one-way mode", i+1)
+					break
+				}
+			}
 			l = updateL(l, o.AlphaAfter, o.BetaAfter)
 		}
 		if logf != nil && len(w.log.all) > 0 && res.verdict != "" {
@@ -274,6 +292,7 @@ func runC01(t *testing.T, root string, c c01case, logf func(string, ...any)) (re
 			}
 		}
 		w.close()
+		res.stale = w.stale
 		if w.infra != "" {
 			res.infra = w.infra
 			return
@@ -345,6 +364,7 @@ func c01worker(t *testing.T, job *wJob, out *wOutput) {
 		res := runC01(t, root, c, nil)
 		out.Extra["cycles_on_real_code"] += int64(res.cycles)
 		out.Extra["histories"]++
+		out.Extra["requests_not_matching_disk"] += int64(res.stale)
 		if res.infra != "" {
 			out.fail("%s: %s", c.key(), res.infra)
 			return nil
@@ -445,6 +465,7 @@ func exploreC01(t *testing.T, r *vr.Report, root string, m core.SynchronizationM
 		})
 		r.Add("cycles_on_real_code", extra["cycles_on_real_code"])
 		r.Add("histories", extra["histories"])
+		r.Add("requests_not_matching_disk", extra["requests_not_matching_disk"])
 		if n := extra["capped_items"]; n > 0 {
 			r.NotExhaustive(fmt.Sprintf("wall budget reached at depth %d (%s): %d expansions not run", depth+1, modeName(m), n))
 		}
@@ -508,7 +529,7 @@ func TestC01Controller(t *testing.T) {
 	}
 	maxDepth, maxFaults, allKinds := 8, 1, false
 	if vr.Thorough() {
-		maxDepth, maxFaults, allKinds = 5, 1, true
+		maxDepth, maxFaults, allKinds = 12, 2, true
 	}
 	kinds := "refused (reports Old, problem)"
 	if allKinds {
@@ -518,7 +539,51 @@ func TestC01Controller(t *testing.T) {
 	r.Assume("one slot with one nested name, two file digests; symbolic links, untracked content and deeper trees are covered at the core level (checks/recon)",
 		"a refused transition leaves the disk as it was; a failing endpoint leaves its disk unchanged and returns the planned entries next to its error",
 		"the scripted endpoint applies a requested change only if Old matches its disk (as the real transition's just-in-time check does)")
-	deadline := vr.Deadline(50*time.Second, 8*time.Minute)
+	deadline := scaledDeadline(50*time.Second, 8*time.Minute)
 	exploreC01(t, r, root, core.SynchronizationMode_SynchronizationModeTwoWaySafe, maxDepth, maxFaults, allKinds, deadline)
 	r.Sample(c01case{Mode: "two-way-safe", Steps: []c01step{{Alpha: "F1"}, {Alpha: "F2", Outcomes: map[string]string{"beta|a": "F1"}}, {}}})
+}
+
+// TestC02Controller is the same history search under the three other modes,
+// judged for C02's clauses (alpha untouched in one-way modes; one-way-safe
+// keeps beta's modifications, two-way-resolved keeps alpha's). It is NOT
+// registered in INDEX (C02 is owned by checks/recon and checks/session); the
+// coordinator may add the line "C02 ctrl TestC02Controller 15m 45m".
+func TestC02Controller(t *testing.T) {
+	r := vr.New(t, "C02", "exploration")
+	defer r.Finish()
+	root := scratch(t)
+	defer removeScratch()
+	tuneGC()
+	if raw := vr.ReplayCase(); raw != nil {
+		var c c01case
+		if err := json.Unmarshal(raw, &c); err != nil {
+			t.Fatalf("INFRA: bad replay case: %v", err)
+		}
+		res := runC01(t, root, c, t.Logf)
+		t.Logf("replay %s: verdict %q infra %q", c.key(), res.verdict, res.infra)
+		r.Case(c.key(), true)
+		if res.infra != "" {
+			t.Fatalf("INFRA: %s", res.infra)
+		}
+		if res.verdict != "" {
+			r.Violate(c.key(), res.verdict, c, nil)
+		}
+		return
+	}
+	maxDepth, maxFaults, allKinds := 8, 1, false
+	if vr.Thorough() {
+		maxDepth, maxFaults, allKinds = 12, 2, true
+	}
+	r.Rule(fmt.Sprintf("as TestC01Controller (histories of <= %d cycles of the real Manager/controller on scripted disks, <= %d faulty cycle(s) per history) under one-way-safe, one-way-replica and two-way-resolved; judged: alpha's endpoint receives no staging/transition request and its disk is unchanged in one-way modes; one-way-safe never replaces beta content that differs from the last agreed content; two-way-resolved never replaces such alpha content; non-trivial = the last cycle requested a transition, listed a conflict or had a fault", maxDepth, maxFaults))
+	r.Assume("same bounds as the C01 controller leg; the scripted alpha endpoint accepts requests (the read-only refusal of the real local endpoint is decided in checks/recon's endpoint leg)")
+	deadline := scaledDeadline(55*time.Second, 9*time.Minute)
+	for _, m := range []core.SynchronizationMode{
+		core.SynchronizationMode_SynchronizationModeOneWaySafe,
+		core.SynchronizationMode_SynchronizationModeOneWayReplica,
+		core.SynchronizationMode_SynchronizationModeTwoWayResolved,
+	} {
+		exploreC01(t, r, root, m, maxDepth, maxFaults, allKinds, deadline)
+	}
+	r.Sample(c01case{Mode: "one-way-safe", Steps: []c01step{{Alpha: "F1"}, {Beta: "F2"}, {Alpha: "F2", Err: "beta"}}})
 }
